@@ -136,7 +136,9 @@ class Engine:
                 try: out += self.layout(bt.name)
                 except Unsupported: pass
         for f in self.ast.fields_of(r):
-            out.append((f['name'], TY.of_node(f), name, f))
+            ft = TY.of_node(f)
+            if ft.kind == 'record' and ft.name in ('omp_lock_t', 'omp_nest_lock_t'): continue     # no state any property reads
+            out.append((f['name'], ft, name, f))
         self.layout_cache[name] = out
         return out
 
@@ -486,7 +488,7 @@ class Engine:
                 return LocalLV(vid)
             if kind == 'BindingDecl':
                 raise Unsupported('binding %s not bound' % rd.get('name'))
-            if self.lazy_locals and kind in ('VarDecl', 'ParmVarDecl') and rd['id'] in self.ast.by_id and (self.ast.parent.get(rd['id']) or {}).get('kind') in FN_KINDS:
+            if self.lazy_locals and kind in ('VarDecl', 'ParmVarDecl') and rd['id'] in self.ast.by_id and self.is_function_local(rd['id']):
                 t = TY.parse(rd['type'].get('desugaredQualType') or rd['type']['qualType'])
                 bt = t.noref()
                 self.var_names[vid] = rd.get('name')
@@ -504,6 +506,12 @@ class Engine:
         if kind in FN_KINDS:
             return Opaque('fnref', rd)
         raise Unsupported('DeclRefExpr to %s %s at %s' % (kind, rd.get('name'), self.where(n, fr)))
+
+    def is_function_local(self, vid):
+        p = self.ast.parent.get(vid)
+        while p is not None and p.get('kind') in ('CapturedDecl', 'DecompositionDecl'):
+            p = self.ast.parent.get(p['id'])
+        return (p or {}).get('kind') in FN_KINDS
 
     def global_var(self, rd, st, fr, n):
         d = self.ast.by_id.get(rd['id'])
